@@ -115,3 +115,91 @@ def r_prototype_scope(P, rep):
             rep.undecided(RULE, '%s:%s:%s-parsed-inside-prototype-scope' % (U, f, SPECIFIERS), und, where='%s:%d' % (U, line))
         else:
             rep.ob(RULE, '%s:%s:%s-parsed-inside-prototype-scope' % (U, f, SPECIFIERS), ok, msg % (f, SPECIFIERS), where='%s:%d' % (U, line))
+
+
+# ----------------------------------------------------------------------- R03.20: the body of a definition continues the parameter list's scope ---
+BODY_RULE = 'R03.20'
+BODY_PARSER = 'compound_stmt'
+DECLARATOR = 'declarator'
+
+
+def _scope_links(pu, rec):
+    return [f for f, t, _ in pu.records.get(rec, []) if (t or '').replace(' ', '').replace('struct', '') == 'Scope*']
+
+
+def _settled(it, v):
+    from .interp import View
+    return it.settle(v) if isinstance(v, View) else v
+
+
+def _same_value(a, b):
+    """b is a itself or the copy a structure assignment makes of it (the interpreter copies an object assigned by value: same origin, same members)"""
+    if a is b:
+        return True
+    if not (isinstance(a, Obj) and isinstance(b, Obj)) or a.tname != b.tname or not a.label or a.label != b.label:
+        return False
+    return all(a.fields[k] is b.fields[k] or (isinstance(a.fields[k], (int, str)) and a.fields[k] == b.fields[k]) for k in a.fields if k in b.fields)
+
+
+def declare_body_scope(rep):
+    rep.rule(BODY_RULE, 'the body of a function definition continues the scope of its parameter list (C11 6.2.1p4: a parameter-list declaration of a definition has block scope, which ends with the body), for '
+                        'every name space alike: when the declarator\'s function type carries the scope its parameter list was parsed in, the body is parsed either in that very scope or in a scope each of whose '
+                        'tables (every member of Scope that is not a link to another scope: ordinary identifiers, tags) starts as the table the parameter list filled, so an enumerator or tag declared among the '
+                        'parameters (`int f(enum { LO, HI } sel) { return sel == HI; }`) is the innermost visible declaration of its name in the body', floor=2)
+
+
+def r_body_scope(P, rep, pu, it, f, paths):
+    """paths: decl_events() of the function-definition parser f (enter_scope / leave_scope opaque, field stores tracked)"""
+    from .interp import View
+    w = '%s:%d' % (U, pu.fn(f).line)
+    saved_fields = _scope_links(pu, 'Type')
+    tables = [x for x, t, _ in pu.records.get('Scope', []) if x not in _scope_links(pu, 'Scope')]
+    if not saved_fields or not tables:
+        rep.undecided(BODY_RULE, '%s:%s:body-scope' % (U, f), 'no member of Type that records a scope / no table member of Scope: how the body gets at the declarations of the parameter list is not recognised', where=w)
+        return
+    n = 0
+    for ctx, o, evs in paths:
+        calls = [(i, e) for i, e in enumerate(ctx.events) if e[0] == 'call']
+        body = next((i for i, e in calls if e[1] == BODY_PARSER), None)
+        if body is None:
+            continue
+        it.ctx = ctx
+        ty = next((_settled(it, e[4]) for i, e in calls if e[1] == DECLARATOR and i < body), None)
+        if not isinstance(ty, Obj):
+            continue
+        cur = _settled(it, ctx.globals.get('scope'))
+        for sf in saved_fields:
+            if sf not in ty.fields:
+                saved = None            # the path never looks at it
+            else:
+                saved = _settled(it, ty.fields[sf])
+                if isinstance(saved, View):
+                    saved = None
+                elif not isinstance(saved, Obj):
+                    continue            # the path has established that no parameter-list scope was recorded (null): nothing to continue
+            for t in tables:
+                key = '%s:%s:body-starts-with-parameter-list-%s' % (U, f, t)
+                n += 1
+                if saved is None:
+                    rep.ob(BODY_RULE, key, False, '%s() hands the body to %s() on a path that never consults the scope its parameter list was parsed in (Type.%s): what the parameter list declared besides the '
+                           'parameters themselves - enumerators, tags - is not visible in the body' % (f, BODY_PARSER, sf), where=w, facts={'path': ctx.trail[-6:]})
+                    continue
+                if cur is saved:
+                    rep.ob(BODY_RULE, key, True, '', where=w)
+                    continue
+                if cur is not None and not isinstance(cur, Obj):
+                    rep.undecided(BODY_RULE, key, 'the innermost scope at the hand-off to %s() is not an object the analysis follows' % BODY_PARSER, where=w)
+                    continue
+                want = _settled(it, saved.fields.get(t)) if t in saved.fields else None
+                last = None
+                for e in ctx.events[:body]:
+                    if cur is not None and e[0] == 'fstore' and e[1] is cur and e[2] == t:
+                        last = _settled(it, e[4])
+                rep.ob(BODY_RULE, key, last is not None and want is not None and _same_value(want, last),
+                       '%s() opens the scope of the body and hands the body to %s() while the new scope\'s `%s` table %s: the body continues the scope of the parameter list (C11 6.2.1p4), but a name the parameter list '
+                       'entered into that table - %s - is not found there, so a use in the body binds to a file-scope declaration of the same name or is rejected as undeclared '
+                       '(`enum { LO = 1, HI = 2 }; int f(enum { LO = 10, HI = 20 } sel) { return HI; }` returns 2)'
+                       % (f, BODY_PARSER, t, 'is not the one the parameter list filled (Type.%s->%s)' % (sf, t) if last is not None else 'starts empty - it is never set from Type.%s->%s' % (sf, t),
+                          'an enumerator' if t != 'tags' else 'a struct/union/enum tag'), where=w, facts={'path': ctx.trail[-6:]})
+    if not n:
+        rep.undecided(BODY_RULE, '%s:%s:body-scope' % (U, f), 'no path of %s() hands a body to %s() with a function type whose parameter-list scope is known to be recorded or absent' % (f, BODY_PARSER), where=w)
